@@ -56,4 +56,12 @@ def toTree (pat : List Seg) (rows : List Row) : Res (List (String × Val)) :=
     let (p, v) ← rowItem pat row
     if p.isEmpty then throw Err.value else pure (setKVs acc p v [])) []
 
+/-- `table_to_tree(tree, pattern, rows, base = type(tree))` on a BASE tree (`_table_to_tree.py:31-38`): the same loop started from
+(a branch-copy of) `tree`; `toTree` is the case `tree = None`.  The pure model returns the new items; that the caller's tree is
+not written is the business of the heap model (`TreeHeap.tableToTreeH`). -/
+def toTreeOn (base : List (String × Val)) (pat : List Seg) (rows : List Row) : Res (List (String × Val)) :=
+  rows.foldlM (fun acc row => do
+    let (p, v) ← rowItem pat row
+    if p.isEmpty then throw Err.value else pure (setKVs acc p v [])) base
+
 end Pyg.TreeTable
